@@ -300,7 +300,7 @@ class Executor:
         return simp(disj(res))
 
     # ------------------------------------------------------------------ cheap entailment (term shaping only)
-    def prove_quick(self, state, cond, timeout_ms=150):
+    def prove_quick(self, state, cond, timeout_ms=400):
         """True if the quantifier-free part of the path condition entails cond (best effort; used only to
         choose simpler but equivalent terms, never to drop an obligation)"""
         c = simp(cond)
@@ -369,7 +369,8 @@ class Executor:
                 # condition *without* the guard itself (never leave the guard behind: it would make the whole state
                 # look infeasible to the caller)
                 state.pc = state.pc[:n]
-                if self.prove_quick(state, z3.Not(g), timeout_ms=1000):
+                # (generous second budget: this decision must not flip when the machine is busy)
+                if self.prove_quick(state, z3.Not(g), timeout_ms=1000) or self.prove_quick(state, z3.Not(g), timeout_ms=10000):
                     continue
                 raise
             except BaseException:
